@@ -306,14 +306,14 @@ class Syn:
         fmax = (dims + [0] * 5)[:5]
         if r < 0.45:
             p = self.rng.choice(list(PRIMS))
-            el = {"fName": name, "fTypeName": CNAME[p], "fType": FTYPE[p], "fArrayDim": len(dims), "fMaxIndex": fmax}
+            el = {"_kind": "TStreamerBasicType", "fName": name, "fTypeName": CNAME[p], "fType": FTYPE[p], "fArrayDim": len(dims), "fMaxIndex": fmax}
 
             def gen():
                 vs = [self.prim_val(p) for _ in range(n)]
                 return (f"(VNum {zlit(vs[0])})" if not dims else "(VList [" + "; ".join(f"VNum {zlit(v)}" for v in vs) + "])"), self.shape(dims, vs)
             return {"name": name, "ty": f"(MPrim {dl} {PRIMS[p][0]})", "els": [el], "gen": gen}
         if r < 0.58:
-            el = {"fName": name, "fTypeName": "TString", "fType": 65 if not dims else 85, "fArrayDim": len(dims), "fMaxIndex": fmax}
+            el = {"_kind": "TStreamerString", "fName": name, "fTypeName": "TString", "fType": 65 if not dims else 85, "fArrayDim": len(dims), "fMaxIndex": fmax}
 
             def gen():
                 xs = [self.sval(("s",)) for _ in range(n)]
@@ -328,7 +328,7 @@ class Syn:
                 t = self.sty()
             if dims and t[0] == "m":
                 dims, dl, n, fmax = [], "[]", 1, [0] * 5
-            el = {"fName": name, "fTypeName": self.sty_name(t), "fType": 500, "fArrayDim": len(dims), "fMaxIndex": fmax}
+            el = {"_kind": "TStreamerSTL", "fName": name, "fTypeName": self.sty_name(t), "fType": 500, "fArrayDim": len(dims), "fMaxIndex": fmax}
 
             def gen():
                 if t[0] == "m":
@@ -345,7 +345,7 @@ class Syn:
                 return f"(VHdr {ver} [] (VList [" + "; ".join(x[0] for x in xs) + "]))", self.shape(dims, [x[1] for x in xs])
             return {"name": name, "ty": f"(MStl {dl} {self.sty_coq(t)})", "els": [el], "gen": gen}
         p = "i32"
-        el = {"fName": name, "fTypeName": "TArrayI", "fType": 62, "fArrayDim": 0, "fMaxIndex": [0] * 5}
+        el = {"_kind": "TStreamerObjectAny", "fName": name, "fTypeName": "TArrayI", "fType": 62, "fArrayDim": 0, "fMaxIndex": [0] * 5}
 
         def gen():
             vs = [self.prim_val(p) for _ in range(self.rng.choice([0, 1, 4]))]
@@ -383,12 +383,12 @@ class Syn:
         return f"(MBase {coq_name(c['cls'])} [{'; '.join(coq_name(x) for x in names)}] [{'; '.join(tys)}])"
 
     def class_streamers(self, c):
-        tobj = {"fName": "TObject", "fTypeName": "BASE", "fType": 66, "fArrayDim": 0, "fMaxIndex": [0] * 5}
+        tobj = {"_kind": "TStreamerBase", "fName": "TObject", "fTypeName": "BASE", "fType": 66, "fArrayDim": 0, "fMaxIndex": [0] * 5}
         info = {}
         els = [tobj]
         if c["base"]:
             b = c["base"]
-            els.append({"fName": b["name"], "fTypeName": "BASE", "fType": 0, "fArrayDim": 0, "fMaxIndex": [0] * 5})
+            els.append({"_kind": "TStreamerBase", "fName": b["name"], "fTypeName": "BASE", "fType": 0, "fArrayDim": 0, "fMaxIndex": [0] * 5})
             info[b["name"]] = ([tobj] if c["base_has_tobject"] else []) + [e for m in b["members"] for e in m["els"]]
         els += [e for m in c["members"] for e in m["els"]]
         info[c["cls"]] = els
@@ -660,12 +660,57 @@ def run(ck: vlib.Check):
            "synthetic": [{k: c[k] for k in ("name", "path", "cls", "digi", "streamer", "data", "offs")} for c in all_syn]}
     ipath = ck.bdir / "py_cases.json"
     ipath.write_text(json.dumps(inp))
-    rc, so, se = vlib.run_impl_script("c01_impl.py", [ipath], timeout=3000)
+    def impl(sub, name):
+        pth = ck.bdir / f"py_cases_{name}.json"
+        pth.write_text(json.dumps(sub))
+        return vlib.run_impl_script("c01_impl.py", [pth], timeout=3000)
+    # run A: fixtures; run B: synthetic streams (separate processes: a native reader that crashes on misparsed bytes must not
+    # take the other half down, and the crashing input has to be localised)
     r = None
-    if rc != 0:
-        ck.tie_broken("correspondence", "python-route", se[-1500:])
-    else:
+    rc, so, se = impl(dict(inp, synthetic=[]), "fixtures")
+    if rc == 0:
         r = json.loads(so)
+    else:
+        ck.tie_broken("correspondence", "python-route (fixtures)", f"rc={rc} " + se[-1200:])
+        import glob as _g
+        files = sorted(os.path.basename(p) for p in _g.glob(str(vlib.REPO / "tests" / "data" / "*")) if p.rsplit(".", 1)[-1] in ("rtraw", "dst", "rec"))
+        found = 0
+        for fn in files:
+            if found >= 2:
+                break
+            rc1, so1, se1 = impl(dict(inp, synthetic=[], dump_native=False, sample=[[fn, b] for b in SPEC_BRANCHES]), "sub")
+            if rc1 == 0:
+                continue
+            for b in SPEC_BRANCHES:
+                rc2, so2, se2 = impl(dict(inp, synthetic=[], dump_native=False, sample=[[fn, b]]), "sub")
+                if rc2 != 0:
+                    found += 1
+                    ck.violation(f"C01:fixture:{fn}:{b}", f"{fn} {b}: reading the branch kills the interpreter (exit status {rc2}) "
+                                 f"{se2[-300:]}", {"file": fn, "branch": b, "rc": rc2})
+                    break
+    syn_res = []
+    if all_syn:
+        rc, so, se = impl(dict(inp, sample=[], dump_native=False), "synthetic")
+        if rc == 0:
+            syn_res = json.loads(so).get("synthetic", [])
+        else:
+            ck.tie_broken("correspondence", "python-route (synthetic)", f"rc={rc} " + se[-800:])
+            found = 0
+            for c in inp["synthetic"]:
+                rc1, so1, se1 = impl(dict(inp, sample=[], dump_native=False, synthetic=[c]), "sub")
+                if rc1 == 0:
+                    syn_res += json.loads(so1).get("synthetic", [])
+                else:
+                    found += 1
+                    if found <= 2:
+                        ck.violation(f"C01:synthetic:{c['name']}:{hashlib.sha1(c['data'].encode()).hexdigest()[:10]}",
+                                     f"well-formed synthetic stream ({c['path']}) kills the interpreter when read through the working-tree "
+                                     f"factories (exit status {rc1})", c)
+    if r is not None:
+        r["synthetic"] = syn_res
+    elif syn_res:
+        r = {"branches": [], "mismatches": [], "tie": [], "selection": [], "samples": [], "hashes": [], "dumps": [], "objects": 0, "values": 0,
+             "registered_in_tree": SPEC_BRANCHES, "synthetic": syn_res}
     dumps = []
     if r is not None:
         dumps = r.pop("dumps")
@@ -740,6 +785,9 @@ def run(ck: vlib.Check):
                 continue
             if model is None:
                 ck.tie_broken("correspondence", c["name"], "model rejects, implementation accepts"); continue
+            if "model" in g and g["model"] != canon_json(model[1]):
+                ck.tie_broken("correspondence", f"schema builder ({c['name']})", "the schema built from the streamer-info dicts decodes the stream "
+                              f"differently from the Gallina term it was generated from: {first_diff(canon_json(model[1]), g['model'])}")
             d = first_diff(canon_json(model[1]), g["got"])
             if d:
                 nbad += 1
@@ -833,8 +881,61 @@ def run(ck: vlib.Check):
 
 
 def replay(path):
+    """re-run the concrete input of a replay file on the current working tree; exit status 1 = still fails"""
     data = json.load(open(path))
-    print(f"replay {data.get('key')}: {str(data.get('what'))[:600]}")
-    print("re-run `tools/check.py C01` to re-evaluate this input on the current tree (fixture keys name file and branch; synthetic and "
-          "native keys carry the stream bytes in the replay file)")
+    key = data.get("key") or ""
+    rp = data.get("replay") or {}
+    print(f"replay {key}: {str(data.get('what'))[:500]}")
+    vlib.ensure_static()
+    (vlib.BUILD / "C01").mkdir(parents=True, exist_ok=True)
+    rootdec, err = build_rootdec(None)
+    if rootdec is None:
+        print(err); return 1
+    base = {"fixtures": str(vlib.REPO / "tests" / "data"), "rootdec": str(rootdec), "branches": SPEC_BRANCHES, "sym_items": c16.SPEC_ITEMS,
+            "outdir": str(vlib.BUILD / "C01" / "py"), "dump_native": False, "synthetic": [], "sample": []}
+    ipath = vlib.BUILD / "C01" / "replay_cases.json"
+    if key.startswith("C01:fixture:"):
+        _, _, fn, br = key.split(":", 3)
+        base["sample"] = [[fn, br]]
+        ipath.write_text(json.dumps(base))
+        rc, so, se = vlib.run_impl_script("c01_impl.py", [ipath], timeout=1500)
+        if rc != 0:
+            print(f"interpreter died / raised: rc={rc} {se[-400:]}"); return 1
+        hits = [m for m in json.loads(so)["mismatches"] if m["key"] == key]
+        for m in hits:
+            print("still failing:", m["what"][:500])
+        if not hits:
+            print("no longer failing: the branch now agrees with the member-by-member decode of its bytes")
+        return 1 if hits else 0
+    if key.startswith("C01:synthetic:") or key == "C01:cgem-first-object-referenced":
+        case = dict(rp)
+        case.setdefault("name", "replay"); case.setdefault("cls", SPEC_BRANCHES.get(case.get("path"), "")); case.setdefault("digi", False)
+        case.setdefault("streamer", {})
+        base["synthetic"] = [case]
+        ipath.write_text(json.dumps(base))
+        rc, so, se = vlib.run_impl_script("c01_impl.py", [ipath], timeout=1500)
+        if rc != 0:
+            print(f"interpreter died: rc={rc}"); return 1
+        g = json.loads(so)["synthetic"][0]
+        if "raised" in g:
+            print("still failing: reading raises", g["raised"]); return 1
+        if "model" in g and g["model"] is not None:
+            d = first_diff(g["model"], g["got"])
+            print("stored vs returned:", "equal" if d is None else f"first difference {d}")
+            return 0 if d is None else 1
+        print("read without error:", str(g.get("got"))[:300]); return 0
+    if key.startswith("C01:native"):
+        exe, err = build_native(vlib.SRC)
+        if exe is None:
+            print(err); return 1
+        if "data" not in rp:
+            print("replay file carries no stream bytes; re-run the check"); return 1
+        op = "G" if "Cgem" in str(data.get("what")) else "T"
+        env = dict(os.environ); env["ASAN_OPTIONS"] = "detect_leaks=0:exitcode=86"
+        rc, so, se = vlib.sh([str(exe)], timeout=600, env=env, input=f"{op} {rp['data'] or '-'} {len(rp['offs'])} " + " ".join(map(str, rp["offs"])) + "\n")
+        mod = run_rootdec(rootdec, [(["blob"] if op == "T" else ["cgem"], [], rp["data"], rp["offs"])], vlib.BUILD / "C01")[0]
+        rec = [l for l in so.splitlines() if l[:2] in ("T ", "G ")]
+        print(f"native rc={rc}: {rec[0][:200] if rec else se[-300:]}; model accepts: {mod is not None}")
+        return 1 if (rc != 0 or not rec or (" EXC " in rec[0]) != (mod is None)) else 0
+    print("nothing to replay for this key; re-run the check")
     return 1
